@@ -133,7 +133,7 @@ def run(ctx):
                        "compile time (undefined name, syntax error, assignment to an immutable) with valid statements around the bad "
                        "one, inputs failing at run time after printing / defining fresh names, host calls by name and through a cached "
                        "callable (succeeding, failing inside the callee, undefined name); no input observes the partial effects of a "
-                       "failed input; function bodies contain no global call sites (keeps the stream out of C05's slot-collision class); "
+                       "failed input; functions that call other global functions (two-level calls from inputs and from the host, including into a failing callee); "
                        "opt level 1 and (every 5th session) 0; per step: class, printed text and returned value vs the reference "
                        "interpreter; printed values, by-name map and frame depth vs the Coq model")
 
